@@ -213,29 +213,43 @@ def run_impl(case_file, threads=NPROC, timeout=900):
     return res
 
 
-def run_model(case_file, shards=NPROC, timeout=900):
-    """Run the extracted model + spec on the case file (sharded)."""
+def run_model(case_file, shards=NPROC, timeout=900, impl=None):
+    """Run the extracted model + spec on the case file (sharded).  When the implementation's
+    results are given, the runner also evaluates the predicate oracles on them."""
     runner = os.path.join(OCAML, "runner")
     lines = [l for l in open(case_file).read().split("\n") if l.strip()]
     n = max(1, min(shards, (len(lines) + 1999) // 2000))
     procs = []
     for k in range(n):
         part = case_file + ".part%d" % k
+        sub = lines[k::n]
         with open(part, "w") as f:
-            f.write("\n".join(lines[k::n]) + "\n")
-        procs.append((part, subprocess.Popen(["timeout", str(timeout), runner, part], stdout=subprocess.PIPE,
-                                             stderr=subprocess.STDOUT, text=True)))
-    model, spec = {}, {}
-    for part, p in procs:
+            f.write("\n".join(sub) + "\n")
+        cmd = ["timeout", str(timeout), runner, part]
+        ipart = None
+        if impl is not None:
+            ipart = part + ".impl"
+            with open(ipart, "w") as f:
+                for l in sub:
+                    cid = l.split(" ", 2)[1]
+                    f.write("%s %s\n" % (cid, impl.get(cid, "")))
+            cmd.append(ipart)
+        procs.append((part, ipart, subprocess.Popen(cmd, stdout=subprocess.PIPE, stderr=subprocess.STDOUT, text=True)))
+    model, spec, orc = {}, {}, {}
+    for part, ipart, p in procs:
         out, _ = p.communicate()
         os.unlink(part)
+        if ipart:
+            os.unlink(ipart)
         if p.returncode != 0:
             raise CheckFailure("model-run", "exit %d\n%s" % (p.returncode, out[-3000:]))
         for line in out.split("\n"):
             if not line:
                 continue
             cid, tag, *rest = line.split(" ", 2)
-            (model if tag == "M" else spec)[cid] = rest[0] if rest else ""
+            {"M": model, "S": spec, "O": orc}[tag][cid] = rest[0] if rest else ""
+    if impl is not None:
+        return model, spec, orc
     return model, spec
 
 
@@ -382,7 +396,7 @@ def correspond(rep, name, cases, theorem, compare_model=True, impl_timeout=900):
             f.write(text + "\n")
     try:
         impl = run_impl(path, timeout=impl_timeout)
-        model, spec = run_model(path)
+        model, spec, orc = run_model(path, impl=impl)
     except CheckFailure as e:
         rep.violations.append(("correspondence cannot be established: " + e.what,
                                {"obligation": e.what, "detail": e.detail, "failing_input_found": False}))
@@ -395,7 +409,12 @@ def correspond(rep, name, cases, theorem, compare_model=True, impl_timeout=900):
         out[cid] = (i, m, sp)
         if i:
             distinct.add(text.split(" ", 2)[2])
-        if sp != "UNSPECIFIED" and i != sp:
+        o = orc.get(cid)
+        if o is not None and o != "ok":
+            rep.fail("the implementation's trace violates the specification: " + o,
+                     {"case": text, "impl": i, "model": m, "oracle": o, "tags": tags,
+                      "theorem": theorem, "failing_input_found": True}, tags)
+        elif sp != "UNSPECIFIED" and i != sp:
             rep.fail("implementation differs from the specification on this input",
                      {"case": text, "impl": i, "spec": sp, "model": m, "tags": tags,
                       "theorem": theorem, "failing_input_found": True}, tags)
